@@ -127,3 +127,110 @@ Definition VInv (s : vstate) : Prop :=
               (forall p, In p (v_pcs s) -> match pc_gen p with Some g => g = b_gen b | None => True end)
   | None => forall p, In p (v_pcs s) -> pc_gen p = None
   end.
+
+(* ---------------------------------------------------------------- the single-vCPU invariant *)
+Lemma vsum_upd g l t x old : nth_error l t = Some old -> vsum g (vupd l t x) = vsum g l - vholds old g + vholds x g.
+Proof.
+  revert t; induction l; destruct t; simpl; intros H; try discriminate.
+  - inversion H; subst. lia.
+  - rewrite (IHl _ H). lia.
+Qed.
+Lemma in_vupd l t x p : In p (vupd l t x) -> p = x \/ In p l.
+Proof.
+  revert t; induction l; destruct t; simpl; intros H; auto.
+  - destruct H; auto.
+  - destruct H as [H|H]; auto. destruct (IHl _ H); auto.
+Qed.
+Lemma forallb_vupd f l t x : forallb f l = true -> f x = true -> forallb f (vupd l t x) = true.
+Proof.
+  revert t; induction l; destruct t; simpl; intros H Hx; auto.
+  - apply andb_true_iff in H. destruct H. rewrite Hx; auto.
+  - apply andb_true_iff in H. destruct H as [H1 H2]. rewrite H1. simpl. auto.
+Qed.
+Lemma vholds_nonneg p g : 0 <= vholds p g.
+Proof. destruct p; simpl; try lia; destruct (Nat.eqb g g0); lia. Qed.
+Lemma vsum_zero g l : vsum g l = 0 -> forall p, In p l -> vholds p g = 0.
+Proof.
+  induction l; simpl; intros H p Hp; [contradiction|].
+  pose proof (vholds_nonneg a g).
+  assert (0 <= vsum g l). { clear. induction l; simpl; [lia|]. pose proof (vholds_nonneg a g). lia. }
+  destruct Hp as [<-|Hp]; [lia|]. apply IHl; auto. lia.
+Qed.
+Lemma nth_in (l : list vpc) t p : nth_error l t = Some p -> In p l.
+Proof. apply nth_error_In. Qed.
+
+Theorem v2_single_vcpu_safe s a : VInv s -> VInv (coop_act s a).
+Proof.
+  intros [U [D B]]. destruct a as [t| |d]; simpl.
+  - (* a borrower's step *)
+    unfold dtor_atomic_step. destruct (nth_error (v_pcs s) t) as [p|] eqn:Ht; [|simpl; rewrite Ht; repeat split; auto].
+    assert (Dp : no_dtor_pc p = true). { rewrite forallb_forall in D. apply D. eapply nth_in; eauto. }
+    destruct p; try discriminate Dp; simpl; rewrite Ht.
+    + (* VIdle: __find_or_create_box *)
+      destruct (v_box s) as [b|] eqn:Eb.
+      * destruct B as [R [G P]]. split; [exact U|]. split; [apply forallb_vupd; auto|]. simpl. split; [|split; auto].
+        -- rewrite (vsum_upd _ _ _ _ _ Ht). simpl. rewrite Nat.eqb_refl. lia.
+        -- intros p Hp. apply in_vupd in Hp. destruct Hp as [->|Hp]; [reflexivity|]. apply P; auto.
+      * split; [exact U|]. split; [apply forallb_vupd; auto|]. simpl. split; [|split; [lia|]].
+        -- rewrite (vsum_upd _ _ _ _ _ Ht). simpl. rewrite Nat.eqb_refl.
+           assert (vsum (v_nextgen s) (v_pcs s) = 0).
+           { clear -B. induction (v_pcs s); simpl; auto. rewrite IHl by (intros; apply B; right; auto).
+             specialize (B a (or_introl eq_refl)). destruct a; simpl in B; try discriminate. reflexivity. }
+           lia.
+        -- intros p Hp. apply in_vupd in Hp. destruct Hp as [->|Hp]; [reflexivity|]. rewrite (B p Hp). auto.
+    + (* VCtor *)
+      destruct (v_box s) as [b|] eqn:Eb; [|specialize (B _ (nth_in _ _ _ Ht)); discriminate].
+      destruct B as [R [G P]]. pose proof (P _ (nth_in _ _ _ Ht)) as Pg. simpl in Pg. subst g.
+      unfold touch. rewrite Eb, Nat.eqb_refl. split; [exact U|]. split; [apply forallb_vupd; auto|]. simpl. split; [|split; auto].
+      * rewrite (vsum_upd _ _ _ _ _ Ht). simpl. rewrite Nat.eqb_refl. lia.
+      * intros p Hp. apply in_vupd in Hp. destruct Hp as [->|Hp]; [reflexivity|]. apply P; auto.
+    + (* VDefer *)
+      destruct (v_box s) as [b|] eqn:Eb; [|specialize (B _ (nth_in _ _ _ Ht)); discriminate].
+      destruct B as [R [G P]]. pose proof (P _ (nth_in _ _ _ Ht)) as Pg. simpl in Pg. subst g.
+      unfold touch. rewrite Eb, Nat.eqb_refl. split; [exact U|]. split; [apply forallb_vupd; auto|]. simpl. split; [|split; auto].
+      * rewrite (vsum_upd _ _ _ _ _ Ht). simpl. rewrite Nat.eqb_refl. lia.
+      * intros p Hp. apply in_vupd in Hp. destruct Hp as [->|Hp]; [reflexivity|]. apply P; auto.
+    + (* VHeld: the whole of ~Borrow *)
+      destruct (v_box s) as [b|] eqn:Eb; [|specialize (B _ (nth_in _ _ _ Ht)); discriminate].
+      destruct B as [R [G P]]. pose proof (P _ (nth_in _ _ _ Ht)) as Pg. simpl in Pg. subst g.
+      assert (NT : forall x, nth_error (vupd (v_pcs s) t x) t = Some x).
+      { intros x. clear -Ht. revert t Ht. induction (v_pcs s); destruct t; simpl; intros; try discriminate; auto. }
+      assert (UU : forall x y, vupd (vupd (v_pcs s) t x) t y = vupd (v_pcs s) t y).
+      { intros x y. clear. revert t. induction (v_pcs s); destruct t; simpl; auto. f_equal; auto. }
+      unfold vstep at 3. rewrite Ht. unfold touch at 1. rewrite Eb, Nat.eqb_refl.
+      unfold vstep at 2. unfold setb at 1. cbn [v_pcs v_box]. rewrite NT. unfold touch at 1. cbn [v_box b_gen]. rewrite Nat.eqb_refl.
+      cbn [b_rc]. destruct (b_rc b - 1 =? 0) eqn:Ez.
+      * unfold setb at 1. unfold vstep. cbn [v_pcs]. rewrite UU, NT. unfold touch. cbn [v_box b_gen]. rewrite Nat.eqb_refl.
+        unfold setb. cbn. rewrite !UU. split; [exact U|]. split; [apply forallb_vupd; auto|]. split; [|split; auto].
+        -- rewrite (vsum_upd _ _ _ _ _ Ht). simpl. rewrite Nat.eqb_refl. lia.
+        -- intros p Hp. apply in_vupd in Hp. destruct Hp as [->|Hp]; [exact Logic.I|]. apply P; auto.
+      * unfold setb. cbn. rewrite !UU. split; [exact U|]. split; [apply forallb_vupd; auto|]. split; [|split; auto].
+        -- rewrite (vsum_upd _ _ _ _ _ Ht). simpl. rewrite Nat.eqb_refl. lia.
+        -- intros p Hp. apply in_vupd in Hp. destruct Hp as [->|Hp]; [exact Logic.I|]. apply P; auto.
+  - (* the reclaimer *)
+    destruct (v_box s) as [b|] eqn:Eb; [|repeat split; auto; rewrite Eb; auto].
+    destruct B as [R [G P]].
+    destruct (b_lru b && (b_ts b <? sat_sub (v_now s) (v_life s))); [|repeat split; auto; rewrite Eb; auto].
+    destruct (b_rc b =? 0) eqn:Ez.
+    + apply Z.eqb_eq in Ez. split; [exact U|]. split; [exact D|]. simpl.
+      intros p Hp. rewrite Ez in R. symmetry in R. pose proof (vsum_zero _ _ R p Hp) as Z0.
+      pose proof (P p Hp) as Pg. rewrite forallb_forall in D. pose proof (D p Hp) as Dp.
+      destruct p; simpl in *; try discriminate; auto; subst; rewrite Nat.eqb_refl in Z0; lia.
+    + split; [exact U|]. split; [exact D|]. simpl. auto.
+  - (* time *) split; [exact U|]. split; [exact D|]. simpl. exact B.
+Qed.
+
+Lemma v2_init_inv now life n : VInv (vinit now life n).
+Proof.
+  split; [reflexivity|]. split.
+  - simpl. induction n; simpl; auto.
+  - simpl. intros p Hp. apply repeat_spec in Hp. subst. reflexivity.
+Qed.
+
+(* every single-vCPU schedule (each ~Borrow runs without a context switch) is free of use-after-free *)
+Theorem v2_single_vcpu_no_uaf now life n sched : v_uaf (fold_left coop_act sched (vinit now life n)) = false.
+Proof.
+  assert (H : forall s, VInv s -> VInv (fold_left coop_act sched s)).
+  { induction sched; simpl; intros s I; auto. apply IHsched. apply v2_single_vcpu_safe; auto. }
+  apply (H _ (v2_init_inv now life n)).
+Qed.
